@@ -203,6 +203,19 @@ def cycles():
                     parts = [helpers, r, u]
                     parts = parts[order:] + parts[:order]
                     out.append("".join(parts) + m)
+    # lassos: classes that inherit INTO a cycle without being on it (tails of length 1 and 2, hanging off any member of the ring),
+    # in every declaration order of the classes - which class the analyser's tables yield first must not matter
+    import itertools
+    def cls(n, b):
+        return "class %s extends %s { public constructor() -> %s = default; }\n" % (n, b, n)
+    for ring in ([("A", "A")], [("A", "B"), ("B", "A")], [("A", "B"), ("B", "C"), ("C", "A")]):
+        members = [n for n, _ in ring]
+        for at in members:
+            for tails in ([("T1", at)], [("T1", at), ("T2", "T1")], [("T1", at), ("T2", at)]):
+                decls = [cls(n, b) for n, b in ring + tails]
+                for perm in itertools.permutations(decls):
+                    for m in ("function main() -> void { }\n", "function main() -> void { T1 t = new T1(); echo(1); }\n"):
+                        out.append("".join(perm) + m)
     return out
 
 
